@@ -160,6 +160,10 @@ def shard(ctx):
             s = gen.pick(rng, dict(G1=3, G3=2, G4=3, G6=1, G10=1), False)
             run = do_count(gen.render(s), opts, budget=stream.budget_for(ctx), render=True)
             ctx.evaluated()
+            if run.error is not None or run.timed_out:
+                # an election that was constructed but not finished may still have re-initialised its arithmetic class: the
+                # previous count can only be rendered again if nothing of its own class was set up in between
+                prev = None
             if run.error is not None:
                 ctx.count('count_raised:' + type(run.error).__name__)
             elif not run.timed_out:
